@@ -207,3 +207,59 @@ def bar_plan(rng, nseg=(1, 3), nbars=(1, 3), sigs=None, ppqn=24):
             bars.append((t, L, s))
             t += L
     return bars, ts_ev, t
+
+
+def piece(rng, ntracks=None, sigs=None, nseg=(1, 3), nbars=(1, 3), lens=None, ongrid=None, ragged=True, keys=True,
+          multi_channel=False, max_notes=8, cross_bars=True, pitches=(60, 61, 72), meta=None):
+    """multi-track, bar-laid piece.  Signatures (and keys) sit on bar lines of the meta track.
+    Returns {"tracks": [seqspec], "ts": [(t,n,d)], "ks": [(t,key)], "bars": [(start,len,(n,d))], "total", "meta"}"""
+    bars, ts_ev, total = bar_plan(rng, nseg=nseg, nbars=nbars, sigs=sigs)
+    while not bars:
+        bars, ts_ev, total = bar_plan(rng, nseg=nseg, nbars=nbars, sigs=sigs)
+    ntr = ntracks or rng.randint(1, 3)
+    meta = rng.randrange(ntr) if meta is None else meta
+    ks_ev = []
+    if keys:
+        for b in rng.sample(bars, min(len(bars), rng.randint(0, 2))):
+            ks_ev.append((b[0], rng.choice(KEYS)))
+        ks_ev = sorted(dict(ks_ev).items())
+    tracks = []
+    for i in range(ntr):
+        if ragged:
+            tl = rng.choice([total, total, rng.randrange(1, total + 1), 0])
+        else:
+            tl = total
+        chans = (0, 1) if (multi_channel and rng.random() < 0.5) else (0,)
+        notes = []
+        busy = {}
+        vs = list(range(1, 128))
+        rng.shuffle(vs)
+        for _ in range(rng.randint(0, max_notes) if tl else 0):
+            b0, bl, _sig = rng.choice(bars)
+            if b0 >= tl:
+                continue
+            on = b0 + (rng.choice([x for x in range(bl) if ongrid(x)]) if ongrid else rng.randrange(0, bl))
+            ln = rng.choice(lens) if lens else rng.randint(1, 60)
+            if not cross_bars and on + ln > b0 + bl:
+                cand = [v for v in (lens or range(1, 61)) if on + v <= b0 + bl]
+                if not cand:
+                    continue
+                ln = rng.choice(cand)
+            if on + ln > total or on >= tl:
+                continue
+            c, p = rng.choice(chans), rng.choice(pitches)
+            iv = busy.setdefault((c, p), [])
+            if any(not (on + ln <= a or on >= b) for a, b in iv):
+                continue
+            iv.append((on, on + ln))
+            notes.append([c, p, on, ln, vs[len(notes) % 127]])
+        extra = []
+        if i == meta:
+            extra += [["ts", t, n, d] for (t, n, d) in ts_ev]
+            extra += [["ks", t, k] for (t, k) in ks_ev]
+        spec = {"notes": notes, "extra": extra, "start": rng.choice(["abs", "rel", "both"])}
+        end = end_of(spec)
+        if tl > end and rng.random() < 0.7:
+            spec["pad"] = tl
+        tracks.append(spec)
+    return {"tracks": tracks, "ts": ts_ev, "ks": ks_ev, "bars": bars, "total": total, "meta": meta}
